@@ -150,6 +150,7 @@ impl fatfs::IoError for DevErr {
 }
 
 pub const BUDGET_PANIC: &str = "VERIF_DEVICE_CALL_BUDGET_EXCEEDED";
+pub const BUDGET_TAG: u64 = 0xB0D6_E7ED;
 
 pub struct DevInner {
     pub store: Store,
@@ -268,8 +269,14 @@ impl DevInner {
         self.calls += 1;
         let c = Call { kind, off, len, in_drop: in_drop() };
         if self.calls > self.budget {
+            // Non-termination oracle. Unwinding out of a device call is unsafe for the process (the library holds its
+            // RefCell borrowed, and its destructors would panic a second time), so the overrun is first reported as
+            // an error on every further call; only a loop that ignores even that is broken by a panic.
             self.budget_hit = true;
-            std::panic::panic_any(BUDGET_PANIC);
+            if self.calls > self.budget.saturating_add(200_000) {
+                std::panic::panic_any(BUDGET_PANIC);
+            }
+            return Err(DevErr::Injected(BUDGET_TAG));
         }
         if self.log_calls {
             self.log.push(c);
